@@ -125,7 +125,10 @@ def json_lines(out, prefix):
     head = '"%s|' % prefix
     for line in out.splitlines():
         if line.startswith(head):
-            yield json.loads(line[len(head):-1].replace('\\"', '"').replace("\\\\", "\\"))
+            try:
+                yield json.loads(line[len(head):-1].replace('\\"', '"').replace("\\\\", "\\"))
+            except ValueError as e:
+                raise vlib.Infra("unreadable %s line in the TLC output (%s): %s" % (prefix, e, line[:200]))
 
 
 def jmap(pairs):
@@ -231,12 +234,28 @@ def run(c):
     quick = c.tier == "quick"
     c.rule = ("every Prove step (committed history, root index, query key, encoding) of the exhaustive TLC graph of Proof.tla (Gen_Proof*.cfg) is "
               "replayed on the real generator for every key family, and every forgery of its ForgeTable on the real verifier; a case is one "
-              "honest proof or one forged message; distinct = distinct (family, history, root, key, encoding) resp. (level, walk, step, request)")
+              "honest proof or one forged message; distinct = distinct (family, history, root, key, encoding) resp. (level, walk, step, request). "
+              "Life cycle (ProofRoots.tla): every state of the generated tree of behaviours is rebuilt and a proof is requested for every root the "
+              "specification retains, every key, both encodings; a case is one proof (or one transplant of it to another retained root). Node level "
+              "(StateQuery.tla): a case is one generated (chain behaviour, query) answered by the real chain service, resp. one variable proof of it")
     c.assumptions = ["in-memory key-value store (aergo-lib memorydb) stands for the disk store",
                      "the symbolic hash of Proof.tla is injective; the concrete hash is sha256 (collision resistance assumed)",
                      "independent verifier written in the harness from Proof.tla's Accept/Fold/FoldC with crypto/sha256",
                      "background keys come in prefix-sharing pairs so that the abstract proof shape maps 1:1 to the concrete one",
+                     "node level: one in-process node per shard process (real ChainService, block production and execution; recording stand-ins for p2p/rpc/"
+                     "syncer; the Lua VM is replaced by the op-list interpreter of the overlay: set/del write through the real ContractState)",
+                     "ProofRoots.tla oddities O4 (an AtomicUpdate that deletes gives up earlier uncommitted roots) and O5 (Stash needs a Commit of the "
+                     "same instance) are modelled as coded; trie.Revert (deletes shared nodes by design, not used by the node) is not modelled",
                      "TLC 1.8.0"]
+    # 0. the models of part 2 (root life cycle) and part 3 (state queries of the chain service) run beside the others
+    big = "" if quick else "_big"
+    sq_blocks = 4
+    side = {}
+    threads = [tlc_thread(side, "roots", [("MC_ProofRoots", "MC_ProofRoots%s.cfg" % big, os.path.join(c.work, "tlc_roots"), 4),
+                                          ("MC_ProofRoots", "Gen_ProofRoots%s.cfg" % big, os.path.join(c.work, "tlc_roots"), 4)]),
+               tlc_thread(side, "sdb", [("MC_ProofRoots", "Gen_ProofRoots_sdb%s.cfg" % big, os.path.join(c.work, "tlc_sdb"), 4)]),
+               tlc_thread(side, "sq", [("MC_StateQuery", "MC_StateQuery%s.cfg" % big, os.path.join(c.work, "tlc_sq"), 4),
+                                       ("MC_StateQuery", "Gen_StateQuery%s.cfg" % big, os.path.join(c.work, "tlc_sq"), 4)])]
     # 1. exhaustive design-level checks
     mcs = [("MC_Proof.cfg", "Proof design: Complete, Sound, CodeDeviatesOnlyAsNamed (every trie over 4 keys, both roots)")] if quick else \
           [("MC_Proof_big.cfg", "Proof design, 4-bit keys with a depth-4 pair (height byte wraps), every trie over 5 keys"),
@@ -253,6 +272,32 @@ def run(c):
     nforg = sum(len(p["forg"]) for cs in cases for p in cs["proofs"])
     if nproofs < 500 or nforg < 10000:
         raise vlib.Infra("too few cases generated: %d proofs, %d forgeries" % (nproofs, nforg))
+    for t in threads:
+        t.join()
+    for key in ("roots", "sdb", "sq"):
+        for r in side.get(key) or [vlib.Infra("TLC thread %s did not report" % key)]:
+            if isinstance(r, BaseException):
+                raise r if isinstance(r, vlib.Infra) else vlib.Infra("TLC thread %s: %r" % (key, r))
+    mc_roots, gen_roots = side["roots"]
+    mc_sq, gen_sq = side["sq"]
+    gen_sdb = side["sdb"][0]
+    c.require_ok(mc_roots, "ProofRoots design: ProofMatchesRequestedRoot, RetainedRootsResolve, Sound over the trie's life cycle (Update/AtomicUpdate "
+                           "without Commit, Commit, Stash, SetRoot, LoadCache, Reopen; every retained root x 8 keys x 2 encodings)")
+    c.require_ok(gen_roots, "ProofRoots generation: the tree of life-cycle behaviours (%s)" % gen_roots.cfg)
+    c.require_ok(gen_sdb, "ProofRoots generation for the StateDB level: blocks (Update; Commit), SetRoot, LoadCache, Reopen (%s)" % gen_sdb.cfg)
+    c.require_ok(mc_sq, "StateQuery design: AnswersTheRequestedBlock over every chain (deploy, set, overwrite, delete, create later) and every query")
+    c.require_ok(gen_sq, "StateQuery generation: every (behaviour, query) with the expected answer (%s)" % gen_sq.cfg)
+    shapes, rnodes = roots_from(gen_roots)
+    if len(rnodes) != gen_roots.distinct - 1 or len(rnodes) < 2000 or not shapes:
+        raise vlib.Infra("ProofRoots generation: %d states parsed, TLC found %d, %d shape rows" % (len(rnodes), gen_roots.distinct, len(shapes)))
+    sshapes, sall = roots_from(gen_sdb)
+    snodes = [n for n in sall if statedb_reachable(n)]
+    if len(sall) != gen_sdb.distinct - 1 or len(snodes) < 400 or not sshapes:
+        raise vlib.Infra("ProofRoots generation (StateDB level): %d states parsed, TLC found %d, %d usable" % (len(sall), gen_sdb.distinct, len(snodes)))
+    behs = queries_from(gen_sq, sq_blocks)
+    nq = sum(len(b["queries"]) for b in behs)
+    if len(behs) < 100 or nq < 5000 or len(set(len(b["queries"]) for b in behs)) != 1:
+        raise vlib.Infra("StateQuery generation: %d behaviours, %d queries" % (len(behs), nq))
     fams = families(c.tier, rng, 3)
     walks = gen_walks(rng, 3 if quick else 12, 8 if quick else 14, 5)
     inp = {"h": 3, "families": fams, "background": 2, "cases": cases, "walks": walks, "vals": VALS}
@@ -266,12 +311,23 @@ def run(c):
     # 3. trie level
     outpath = os.path.join(c.work, "proof_out.json")
     tracepath = os.path.join(c.work, "proof_trace.ndjson")
-    rc, output = vlib.go_test("./pkg/trie/", "^TestVerifProof$", env={"VERIF_IN": inpath, "VERIF_OUT": outpath, "VERIF_TRACE": tracepath,
-                              "VERIF_SEED": c.seed, "VERIF_TIER": c.tier}, timeout=3000)
+    rfams = fams[:4] + fams[-1:] if quick else fams
+    rinp = {"h": 3, "families": rfams, "background": 2, "vals": VALS, "shapes": shapes, "nodes": rnodes}
+    rinpath = os.path.join(c.work, "roots_in.json")
+    json.dump(rinp, open(rinpath, "w"))
+    routpath = os.path.join(c.work, "roots_out.json")
+    rc, output = vlib.go_test("./pkg/trie/", "^(TestVerifProof|TestVerifProofRoots)$", env={"VERIF_IN": inpath, "VERIF_OUT": outpath, "VERIF_TRACE": tracepath,
+                              "VERIF_ROOTS_IN": rinpath, "VERIF_ROOTS_OUT": routpath, "VERIF_SEED": c.seed, "VERIF_TIER": c.tier}, timeout=3000)
     r = c.absorb_go(outpath, output)
+    rr = c.absorb_go(routpath, output)
     if rc != 0:
-        raise vlib.Infra("trie harness failed:\n" + output[-3000:])
+        if not c.violations:
+            raise vlib.Infra("trie harness failed:\n" + output[-3000:])
+        return      # the harness process died after it had recorded violations of the real code: they are the verdict
     c.extra["trie_counts"] = (r.get("extra") or {}).get("counts", {})
+    c.extra["trie_roots_counts"] = (rr.get("extra") or {}).get("counts", {})
+    if int(rr.get("evaluations", 0)) < 32 * len(rnodes) and not c.violations:
+        raise vlib.Infra("trie life-cycle harness evaluated only %s proofs for %d states" % (rr.get("evaluations"), len(rnodes)))
 
     # 4. statedb level: the same cases through StateDB.GetAccountAndProof / GetVarAndProof
     sfams = fams if not quick else fams[:4] + fams[-1:]
@@ -279,12 +335,40 @@ def run(c):
     sinpath = os.path.join(c.work, "proof_sdb_in.json")
     json.dump(sinp, open(sinpath, "w"))
     soutpath = os.path.join(c.work, "proof_sdb_out.json")
-    rc, output = vlib.go_test("./state/statedb/", "^TestVerifProofStateDB$", env={"VERIF_IN": sinpath, "VERIF_OUT": soutpath,
-                              "VERIF_SEED": c.seed, "VERIF_TIER": c.tier}, timeout=3000)
+    srinp = dict(rinp, nodes=snodes, shapes=sshapes)
+    srinpath = os.path.join(c.work, "roots_sdb_in.json")
+    json.dump(srinp, open(srinpath, "w"))
+    sroutpath = os.path.join(c.work, "roots_sdb_out.json")
+    rc, output = vlib.go_test("./state/statedb/", "^(TestVerifProofStateDB|TestVerifProofRootsStateDB)$", env={"VERIF_IN": sinpath, "VERIF_OUT": soutpath,
+                              "VERIF_ROOTS_IN": srinpath, "VERIF_ROOTS_OUT": sroutpath, "VERIF_SEED": c.seed, "VERIF_TIER": c.tier}, timeout=3000)
     r2 = c.absorb_go(soutpath, output)
+    rr2 = c.absorb_go(sroutpath, output)
     if rc != 0:
-        raise vlib.Infra("statedb harness failed:\n" + output[-3000:])
+        if not c.violations:
+            raise vlib.Infra("statedb harness failed:\n" + output[-3000:])
+        return
     c.extra["statedb_counts"] = (r2.get("extra") or {}).get("counts", {})
+    c.extra["statedb_roots_counts"] = (rr2.get("extra") or {}).get("counts", {})
+
+    # 4b. node level: every generated (behaviour, query) on an in-process node, through the real query handler
+    qinp = {"blocks": sq_blocks, "behaviours": behs}
+    qinpath = os.path.join(c.work, "statequery_in.json")
+    json.dump(qinp, open(qinpath, "w"))
+    nsh = 6 if quick else 12
+    qouts = [os.path.join(c.work, "statequery_out_%d.json" % i) for i in range(nsh)]
+    rs = vlib.go_test_sharded("./internal/verifnode/", "^TestVerifStateQuery$", nsh,
+                              lambda i: {"VERIF_IN": qinpath, "VERIF_OUT": qouts[i], "VERIF_SEED": c.seed, "VERIF_TIER": c.tier}, timeout=2400)
+    nev = 0
+    for i, (rc, out) in enumerate(rs):
+        rq = c.absorb_go(qouts[i], out)
+        nev += int(rq.get("evaluations", 0))
+        if rc != 0 and not c.violations:
+            raise vlib.Infra("state query harness shard %d failed:\n%s" % (i, "\n".join(l for l in out.splitlines() if not l.startswith('{"level'))[-3000:]))
+    if nev < nq and not c.violations:
+        raise vlib.Infra("state query harness evaluated %d of %d queries" % (nev, nq))
+    c.extra["exhaustive_note"] += ("; life cycle: %d states of the generated tree (StateDB level: %d states of its own tree), every retained root x 8 keys x 2 encodings, "
+                                   "each state without live cache and with one; node level: %d behaviours x %d queries" % (
+                                       len(rnodes), len(snodes), len(behs), len(behs[0]["queries"])))
 
     # 5. direction B: the recorded walks validated by TLC against ProofTrace.tla
     lines = [l for l in open(tracepath) if l.strip()]
@@ -316,6 +400,10 @@ def run(c):
         if ok3 or m3 != k + 1:
             raise vlib.Infra("binding self-test failed: rejected honest proof at event %d not refused there (accepted=%s, stopped at %d)" % (k + 1, ok3, m3))
         c.notes.append("self-test: altered Prove answer rejected at event %d, honest proof reported as rejected refused at event %d" % (m2, m3))
+    for lvl, key in (("trie life cycle", "trie_roots_counts"), ("statedb life cycle", "statedb_roots_counts")):
+        n = {k: v for k, v in c.extra[key].items() if k.startswith("note:")}
+        if n:
+            c.notes.append("%s, informational counters: %s" % (lvl, json.dumps(n, sort_keys=True)))
     for lvl, cnt in (("trie", c.extra["trie_counts"]), ("statedb", c.extra["statedb_counts"])):
         vs_coded = sum(v for k, v in cnt.items() if k.startswith("note:real-vs-coded-model"))
         vs_design = sum(v for k, v in cnt.items() if k.startswith("note:real-vs-design-model"))
